@@ -80,8 +80,16 @@ func accessorScope(p *Prog) (entries []*ssa.Function, closure []*ssa.Function) {
 // boundsObligations emits one obligation per index/slice site of fn.
 func boundsObligations(r *Report, rule string, fn *ssa.Function, assume func(*BCtx), reviewed map[string]string) (total, proved int) {
 	c := NewBCtx(fn)
-	if assume != nil {
-		assume(c)
+	// integer parameters of unexported helpers: at least the smallest constant any call site passes
+	// (`r.redirectAddr("MOVED", 2)`), a one-level summary of the call sites
+	nLow := len(c.Lower)
+	if !isExportedName(fn.Name()) && fn.Parent() == nil {
+		paramLowerFromCallers(r.P, fn, c)
+	}
+	if len(c.Lower) != nLow || assume != nil {
+		if assume != nil {
+			assume(c)
+		}
 		c.induction() // lower bounds of loop variables may depend on the assumed bounds
 	}
 	for _, s := range c.IndexSites() {
